@@ -5,7 +5,7 @@ EXTENDS KBucket, Json
 Local6 == <<1,0,1,1,0,1>>
 Ids6 == << <<0,0,0,0,0,0>>,   \* 1  cpl 0
            <<1,0,1,0,0,1>>,   \* 2  cpl 3   (third id of that class: capacity rejections)
-           <<1,1,0,0,0,0>>,   \* 3  cpl 1   (target only)
+           <<1,0,1,0,1,0>>,   \* 3  cpl 3   (fourth id of that class: rejections with K = 3; target only with K = 2)
            <<1,0,0,1,0,1>>,   \* 4  cpl 2   (target only)
            <<1,0,1,0,0,0>>,   \* 5  cpl 3
            <<1,0,1,0,1,1>>,   \* 6  cpl 3
@@ -14,6 +14,7 @@ Ids6 == << <<0,0,0,0,0,0>>,   \* 1  cpl 0
            <<1,0,1,1,0,1>>,   \* 9  cpl 6 = the local id itself
            <<1,0,1,1,1,1>> >> \* 10 cpl 4
 Peers8 == {1, 2, 5, 6, 7, 8, 9, 10}
+Peers8k3 == {1, 2, 3, 5, 6, 7, 8, 9}
 Peers10 == 1..10
 TargetSeq == <<1, 2, 3, 4, 5, 6, 7, 8, 9, 10>>
 CountSeq == <<1, 2, 3, 5>>
